@@ -339,6 +339,90 @@ def foreignHeaderWriters : List (String × String) := [%s]
 `, strings.Join(raws, ",\n  "), strings.Join(foreign, ", "))
 	})
 
+	// ---- literal tables: short media-type names (normalizeMediaType), extension fallback (ContentType)
+	g.guard("literal tables", `
+def mimeShortNames : List (String × String) := [("EXTRACT-PROBLEM", "")]
+def contentTypeFallback : List (String × String) := [("EXTRACT-PROBLEM", "")]
+def contentTypeFallbackDefault : String := "EXTRACT-PROBLEM"
+`, func() string {
+		d := rp.funcs["normalizeMediaType"]
+		if d == nil {
+			pxFail(nil, "normalizeMediaType not found")
+		}
+		var short []string
+		ast.Inspect(d.Body, func(n ast.Node) bool {
+			cl, ok := n.(*ast.CompositeLit)
+			if !ok {
+				return true
+			}
+			if _, isMap := cl.Type.(*ast.MapType); !isMap {
+				return true
+			}
+			for _, e := range cl.Elts {
+				kv := e.(*ast.KeyValueExpr)
+				k, ok1 := strLit(kv.Key)
+				v, ok2 := strLit(kv.Value)
+				if !ok1 || !ok2 {
+					pxFail(kv, "normalizeMediaType: table entry is not a pair of string literals")
+				}
+				short = append(short, fmt.Sprintf("(%s, %s)", leanStr(k), leanStr(v)))
+			}
+			return false
+		})
+		if short == nil {
+			pxFail(d, "normalizeMediaType: no map literal")
+		}
+		sort.Strings(short)
+		cd := rp.methods["Context"]["ContentType"]
+		if cd == nil {
+			pxFail(nil, "Context.ContentType not found")
+		}
+		var fb []string
+		def := ""
+		ast.Inspect(cd.Body, func(n ast.Node) bool {
+			sw, ok := n.(*ast.SwitchStmt)
+			if !ok {
+				return true
+			}
+			for _, c := range sw.Body.List {
+				cc := c.(*ast.CaseClause)
+				if len(cc.Body) != 1 {
+					pxFail(cc, "ContentType: fallback case is not a single assignment")
+				}
+				as, ok := cc.Body[0].(*ast.AssignStmt)
+				if !ok {
+					pxFail(cc, "ContentType: fallback case is not a single assignment")
+				}
+				v, ok := strLit(as.Rhs[0])
+				if !ok {
+					pxFail(as, "ContentType: fallback value is not a literal")
+				}
+				if len(cc.List) == 0 {
+					def = v
+				}
+				for _, e := range cc.List {
+					k, ok := strLit(e)
+					if !ok {
+						pxFail(e, "ContentType: fallback label is not a literal")
+					}
+					fb = append(fb, fmt.Sprintf("(%s, %s)", leanStr(k), leanStr(v)))
+				}
+			}
+			return false
+		})
+		if fb == nil || def == "" {
+			pxFail(cd, "ContentType: no fallback switch")
+		}
+		sort.Strings(fb)
+		return fmt.Sprintf(`
+/-- the short names normalizeMediaType expands (sorted) -/
+def mimeShortNames : List (String × String) := [%s]
+/-- ContentType: extensions the mime package may not know (sorted) and the last resort -/
+def contentTypeFallback : List (String × String) := [%s]
+def contentTypeFallbackDefault : String := %s
+`, strings.Join(short, ", "), strings.Join(fb, ", "), leanStr(def))
+	})
+
 	var out strings.Builder
 	out.WriteString("/- GENERATED by extract/ctxhelpers.go from router/*.go and app/context.go of the current working tree — do not edit, not committed. -/\nnamespace Rivaas.Gen.CtxHelpers\n")
 	if len(g.errs) > 0 {
